@@ -64,3 +64,29 @@ def overlaps(x: int, name: str, names: list[str], d: dict[str, int], p: str, row
     h3 = x == 1 and x == 1.0 or x is None and name is None
     h4 = max(x, 1) if max(x, 1) > 2 else 2
     print(f5, f6, f7, f8, f9, f10, f11, f12, a1, a2, a3, a4, b1, b2, b3, c1, c2, c3, c4, c5, e1, e2, e3, e4, f1, f2, f3, f4, g1, g2, g3, g4, h1, h2, h3, h4)
+
+
+# FURB120 resolves a class call through BOTH `__new__` and `__init__`: what it reports for the one must not depend on what
+# was reported before (by itself for the other method, or by any other check earlier in the file)
+class Conn:
+    def __new__(cls, *args: object, **kwargs: object) -> "Conn":
+        return super().__new__(cls)
+
+    def __init__(self, host: str = "localhost", retries: int = 3) -> None:
+        self.host, self.retries = host, retries
+
+
+class Both:
+    def __new__(cls, size: int = 8) -> "Both":
+        return super().__new__(cls)
+
+    def __init__(self, size: int = 8) -> None:
+        self.size = size
+
+
+def connect(names: list[str]) -> None:
+    c0 = Conn(retries=3)
+    c1 = Conn(host=str("localhost"), retries=3)
+    c2 = Both(size=8)
+    c3 = Both(8), Conn("localhost", 3), list(names)
+    print(c0, c1, c2, c3)
